@@ -2,7 +2,7 @@
 import json, os, subprocess, sys
 for name in sys.argv[1:]:
     pid, mid = name.split("-")
-    wt = f"/tmp/wt6/{pid}" if mid.startswith("r6") else f"/tmp/wt5/{pid}" if mid.startswith("r5") else f"/tmp/wt4/{pid}" if mid.startswith("r4") else f"/tmp/wt3/{pid}" if mid.startswith("r3") else f"/tmp/wt2/{pid}" if mid.startswith("r2") else f"/tmp/wt/{pid}"
+    wt = f"/tmp/wt8/{pid}" if mid.startswith("r8") else f"/tmp/wt7/{pid}" if mid.startswith("r7") else f"/tmp/wt6/{pid}" if mid.startswith("r6") else f"/tmp/wt5/{pid}" if mid.startswith("r5") else f"/tmp/wt4/{pid}" if mid.startswith("r4") else f"/tmp/wt3/{pid}" if mid.startswith("r3") else f"/tmp/wt2/{pid}" if mid.startswith("r2") else f"/tmp/wt/{pid}"
     meta_p = f"/verif/seeded/{name}/meta.json"
     meta = json.load(open(meta_p))
     if meta.get("suite_with_patch"):
